@@ -48,11 +48,11 @@ Theorem C14_json_roundtrip_refuted :
 Proof. exact json_roundtrip_refuted. Qed.
 Print Assumptions C14_json_roundtrip_refuted.
 
-(* K12: a delta with iterable opcodes is serialised but cannot be loaded again *)
-Theorem C14_json_opcode_refuted :
-  exists d j, wfp d = true /\ to_json d = Some j /\ json_load j = None.
-Proof. exact json_opcode_refuted. Qed.
-Print Assumptions C14_json_opcode_refuted.
+(* K12 (fixed in deepdiff c7b983b): a delta with iterable opcodes survives the JSON round trip
+   (the Opcode records travel as arrays and are rebuilt positionally); it lies inside json_ok *)
+Theorem C14_json_opcode_roundtrip : json_ok opcode_payload = true /\ json_roundtrip opcode_payload = Some opcode_payload.
+Proof. split; [exact json_opcode_payload_ok | exact json_opcode_roundtrip]. Qed.
+Print Assumptions C14_json_opcode_roundtrip.
 
 (* a type change from / to None comes back with the value None in place of NoneType *)
 Theorem C14_json_nonetype_refuted :
@@ -60,8 +60,9 @@ Theorem C14_json_nonetype_refuted :
 Proof. exact json_nonetype_refuted. Qed.
 Print Assumptions C14_json_nonetype_refuted.
 
-(* on the JSON-representable fragment (string keys, lists, None/bool/int/float/str,
-   builtin classes under old_type/new_type, no opcodes) the JSON round trip is the identity *)
+(* on the JSON-representable fragment (string keys, lists, None/bool/int/float/str, builtin
+   classes under old_type/new_type, Opcode records with such value lists under _iterable_opcodes)
+   the JSON round trip is the identity *)
 Theorem C14_json_roundtrip_partial : forall d : pv, json_ok d = true -> json_roundtrip d = Some d.
 Proof. exact json_roundtrip_partial. Qed.
 Print Assumptions C14_json_roundtrip_partial.
